@@ -23,7 +23,11 @@ def shards(tier, seed):
     return [{'name': 'walk'}]
 
 
+_WHEN = ''
+
+
 def _fact(rec, name, got, exp, mech):
+    name = name + _WHEN
     rec.ev()
     rec.nt(canon.digest(name))
     if got != exp or type(got) is not type(exp):
@@ -40,8 +44,44 @@ def run_case(case, rec):
 
 
 def run_shard(shard, rec):
+    _walk(rec, 'after import')
+    _perturb(rec)
+    _walk(rec, 'after client code subclassed / raised the exceptions')
+
+
+def _perturb(rec):
+    """What client libraries legitimately do with these classes: subclass
+    them (with and without their own value), instantiate, raise, catch,
+    pickle, look them up - none of which may change the catalogue."""
+    import pickle
+    from pamqp import constants, exceptions
+    made = []
+    for code, cls in sorted(exceptions.CLASS_MAPPING.items()):
+        sub = type('Client' + cls.__name__, (cls,), {})
+        sub2 = type('Other' + cls.__name__, (cls,), {'value': cls.value,
+                                                     'name': cls.name})
+        made += [sub, sub2]
+        for k in (cls, sub, sub2):
+            try:
+                raise k(code, 'text')
+            except exceptions.PAMQPException as e:
+                repr(e), str(e)
+        pickle.loads(pickle.dumps(cls('x')))
+    for base in (exceptions.AMQPSoftError, exceptions.AMQPHardError,
+                 exceptions.AMQPError, exceptions.PAMQPException):
+        made.append(type('Client' + base.__name__, (base,),
+                         {'value': 403, 'name': 'LOGIN-REFUSED'}))
+    list(exceptions.CLASS_MAPPING.items())
+    dict(vars(constants))
+    rec.count('client_subclasses_defined', len(made))
+    rec._keep = made
+
+
+def _walk(rec, when):
     from pamqp import (body, commands, constants, exceptions, frame, header,
                        heartbeat)
+    global _WHEN
+    _WHEN = ' (' + when + ')'
     cm = exceptions.CLASS_MAPPING
     _fact(rec, 'CLASS_MAPPING key set', sorted(cm),
           sorted(refspec.REPLY_CODES), 'reply-code-set')
@@ -134,6 +174,8 @@ def run_shard(shard, rec):
 
 
 def gates(m, tier):
-    if m.counters.get('facts_agree', 0) < 150 and not m.violations:
-        return ['fewer than 150 facts compared']
+    if m.counters.get('facts_agree', 0) < 300 and not m.violations:
+        return ['fewer than 300 facts compared']
+    if not m.counters.get('client_subclasses_defined'):
+        return ['perturbation step did not run']
     return []
